@@ -617,9 +617,25 @@ func c03Permits(c *Check) {
 	var cleanObj types.Object
 	// domain argument derives from Split(X): X must be what is stored into s.mailFrom
 	if dom := objOf(info, take.Args[2]); dom != nil {
+		// the key itself, or a local it is copied from (`_, d, err := Split(x); domain = d`)
+		srcs := map[types.Object]bool{dom: true}
+		ast.Inspect(r.FI.Decl.Body, func(n ast.Node) bool {
+			if as, ok := n.(*ast.AssignStmt); ok && len(as.Lhs) == len(as.Rhs) {
+				for i, l := range as.Lhs {
+					if objOf(info, l) == dom {
+						if y := objOf(info, as.Rhs[i]); y != nil {
+							if v, isVar := y.(*types.Var); isVar && !v.IsField() {
+								srcs[y] = true
+							}
+						}
+					}
+				}
+			}
+			return true
+		})
 		ast.Inspect(r.FI.Decl.Body, func(n ast.Node) bool {
 			if as, ok := n.(*ast.AssignStmt); ok && len(as.Rhs) == 1 {
-				if call, ok := ast.Unparen(as.Rhs[0]).(*ast.CallExpr); ok && isCall(info, call, "~/framework/address.Split") && len(as.Lhs) == 3 && objOf(info, as.Lhs[1]) == dom {
+				if call, ok := ast.Unparen(as.Rhs[0]).(*ast.CallExpr); ok && isCall(info, call, "~/framework/address.Split") && len(as.Lhs) == 3 && srcs[objOf(info, as.Lhs[1])] {
 					cleanObj = objOf(info, call.Args[0])
 				}
 			}
